@@ -2090,26 +2090,73 @@ func (m *metadataAPI) checkResumeStreamPreconditions(op *proto.RaftLog) error {
 
 // checkShrinkISRPreconditions checks if the partition whose ISR is being
 // shrunk exists. If the stream doesn't exist, it returns ErrStreamNotFound. If
-// the partition doesn't exist, it returns ErrPartitionNotFound. Otherwise, it
-// returns nil.
+// the partition doesn't exist, it returns ErrPartitionNotFound. It also checks
+// that the request still names the partition's current leader and leader
+// epoch: the check made when the request arrived can be overtaken by a leader
+// change that was proposed in the meantime, whereas preconditions are evaluated
+// against the up-to-date FSM right before the operation is proposed.
+// Otherwise, it returns nil.
 func (m *metadataAPI) checkShrinkISRPreconditions(op *proto.RaftLog) error {
-	return m.partitionExists(op.ShrinkISROp.Stream, op.ShrinkISROp.Partition)
+	req := op.ShrinkISROp
+	if err := m.partitionExists(req.Stream, req.Partition); err != nil {
+		return err
+	}
+	return m.checkLeaderGeneration(req.Stream, req.Partition, req.Leader, req.LeaderEpoch)
 }
 
 // checkExpandISRPreconditions checks if the partition whose ISR is being
 // expanded exists. If the stream doesn't exist, it returns ErrStreamNotFound.
-// If the partition doesn't exist, it returns ErrPartitionNotFound. Otherwise,
-// it returns nil.
+// If the partition doesn't exist, it returns ErrPartitionNotFound. Like
+// checkShrinkISRPreconditions, it also checks that the request still names the
+// partition's current leader and leader epoch. Otherwise, it returns nil.
 func (m *metadataAPI) checkExpandISRPreconditions(op *proto.RaftLog) error {
-	return m.partitionExists(op.ExpandISROp.Stream, op.ExpandISROp.Partition)
+	req := op.ExpandISROp
+	if err := m.partitionExists(req.Stream, req.Partition); err != nil {
+		return err
+	}
+	return m.checkLeaderGeneration(req.Stream, req.Partition, req.Leader, req.LeaderEpoch)
+}
+
+// checkLeaderGeneration returns an error if the given leader and leader epoch
+// are not the partition's current ones.
+func (m *metadataAPI) checkLeaderGeneration(stream string, partitionID int32, reqLeader string, reqEpoch uint64) error {
+	partition := m.GetPartition(stream, partitionID)
+	if partition == nil {
+		return ErrPartitionNotFound
+	}
+	leader, epoch := partition.GetLeader()
+	if reqLeader != leader || reqEpoch != epoch {
+		return fmt.Errorf("Leader generation mismatch, current leader: %s epoch: %d, got leader: %s epoch: %d",
+			leader, epoch, reqLeader, reqEpoch)
+	}
+	return nil
 }
 
 // checkChangeLeaderPreconditions checks if the partition whose leader is being
 // changed exists. If the stream doesn't exist, it returns ErrStreamNotFound.
-// If the partition doesn't exist, it returns ErrPartitionNotFound. Otherwise,
-// it returns nil.
+// If the partition doesn't exist, it returns ErrPartitionNotFound. It also
+// checks that the proposed leader is still in the partition's ISR and is not
+// the current leader: the candidate was selected from a view of the ISR that an
+// ISR change proposed in the meantime may have overtaken. Otherwise, it returns
+// nil.
 func (m *metadataAPI) checkChangeLeaderPreconditions(op *proto.RaftLog) error {
-	return m.partitionExists(op.ChangeLeaderOp.Stream, op.ChangeLeaderOp.Partition)
+	req := op.ChangeLeaderOp
+	if err := m.partitionExists(req.Stream, req.Partition); err != nil {
+		return err
+	}
+	partition := m.GetPartition(req.Stream, req.Partition)
+	if partition == nil {
+		return ErrPartitionNotFound
+	}
+	if leader, _ := partition.GetLeader(); req.Leader == leader {
+		return fmt.Errorf("%s is already the leader of partition %s", req.Leader, partition)
+	}
+	for _, replica := range partition.GetISR() {
+		if replica == req.Leader {
+			return nil
+		}
+	}
+	return fmt.Errorf("%s is not in the ISR of partition %s", req.Leader, partition)
 }
 
 // checkCreateConsumerGroupPreconditions checks if the group to be created
